@@ -75,7 +75,7 @@ def showState (c : Crypto Sym) (env : Env) (pr : Proc Sym) (strayKey : Data) : S
   let fin := match pr.ending with | none => "-" | some true => "done" | some false => "err"
   let gen := match rs.generated with
     | none => "-"
-    | some (a, b) => b01 (c.verifyGroup env.hash a) ++ b01 (c.verifyGroup env.prevRandom b)
+    | some (a, b) => b01 (sigOk c env.hash a) ++ b01 (sigOk c env.prevRandom b)
   s!"ph={ph} n={rs.number} cp={b01 rs.canProcessed} k={rs.gSign.threshold} g={showEntries c env.hash rs.gSign.witness} r={showEntries c env.prevRandom rs.rSign.witness} grec={b01 (rs.gSign.recovered c)} rrec={b01 (rs.rSign.recovered c)} mgr={b01 pr.inManager} done={b01 pr.done} end={fin} gen={gen} proc={rs.processed.length} fut={rs.future.length} stray={strayCount pr.stray strayKey}"
 
 def filedOf : Wire Sym → Data → Data
